@@ -364,6 +364,20 @@ def build_grounded(case):
 def evaluate(case):
     """Run one case on the real filters -> (failures, info).  failures: list of (target, mode, detail)."""
     if case['via'] in ('envs2', 'reuse'): return evaluate_multi(case)
+    if case['via'] == 'mixed':
+        # ONE stream whose interactions change their kind of actions on the way (seed C10-K: a decision taken on the first
+        # interaction and kept for the stream): member 0's interactions followed by member 1's, one chain of filter objects
+        i0, b0 = build_interactions(dict(member_case(case, 0), via='filters'))
+        i1, b1 = build_interactions(dict(member_case(case, 1), via='filters', n=case['n2']))
+        inters, base = i0 + i1, b0 + b1
+        case = dict(case, via='filters')
+        try:
+            outs = run_chain(case, inters)
+        except HarnessError:
+            raise
+        except Exception as e:   # noqa
+            return raised(e, inters, base)
+        return compare(case['chain'], inters, base, outs)
     if case['via'] == 'grounded':
         inters, base = build_grounded(case)
         case = dict(case, via=case['route'])
@@ -647,6 +661,7 @@ def core_profiles(tier):
 PATTERN_KINDS = ('cat2', 'cat3', 'veccat', 'nestcat', 'num', 'sparsecat')
 GROUNDED_KINDS = ('num', 'cat3', 'veccat')          # GroundedFeedback memoises by action, so actions must be hashable
 MULTI_KINDS = ('sp1', 'sp2', 'sp3', 'sp4', 'sparse', 'cat3', 'vec', 'nestcat')
+MIXED_PAIRS = (('num', 'cat3'), ('str', 'cat3'), ('num', 'cat2'), ('str', 'cat2'), ('num', 'str'), ('str', 'num'))
 MULTI_R = ('list', 'discrete', 'binary', 'binary0v', 'lambda')
 MULTI_PROFILES = ([(r, None, None) for r in MULTI_R] + [(r, 'lambda', None) for r in MULTI_R]
                   + [(r, None, ['sim', -1]) for r in MULTI_R] + [(None, None, ['pure', 0])])
@@ -669,6 +684,7 @@ class C10(Check):
             'non-trivial when the chain ran and changed the actions\' representation, replaced a reward/feedback object or batched.')
     ASSUMPTIONS = [
         'the concrete new representation of actions/context is not constrained, only pairing by position and membership by ==',
+        'streams whose kind of actions changes on the way are explored in the direction plain (numbers/strings) -> categorical and plain -> plain only, without a logged action: coba decides WHICH fields need encoding (context, logged action, categorical rows) on the first interaction of a stream, so on the unchanged tree a logged categorical action behind plain first interactions is left unencoded (no longer a member of the one-hot action set) and a categorical-first stream followed by plain actions raises AttributeError; both were observed while building this family and are recorded in DESIGN.md section 7 as not demanded (heterogeneous streams are not produced by any coba source), only the reward/feedback pairing is demanded there',
         'a sequence reward (list/tuple/Batch.List) pairs by position; a callable reward is asked with the action object found in the new action list',
         'duplicate actions inside one interaction are not generated; if Densify(method=hashing, action=True) is in the chain and two actions become equal (hash collision, documented) nothing is demanded',
         'reward noise is not used (it changes rewards by design); action noise is integer and injective so actions stay distinct',
@@ -745,6 +761,15 @@ class C10(Check):
                             for ch in chs:
                                 yield {'a': a1, 'a2': a2, 'order': order, 'r': rk, 'f': fk, 'lg': lg, 'n': 'ab', 'chain': ch, 'via': via}
 
+        # one stream whose action kind changes on the way: plain actions first and categorical ones later, and the reverse
+        for a1, a2 in MIXED_PAIRS:
+            for n1 in ('a', 'aa', 'ab'):
+                for (rk, fk, lg) in MULTI_PROFILES:
+                    if lg is not None: continue      # see ASSUMPTIONS: which fields get encoded is decided on the first interaction
+                    for ch in one:
+                        if ch[0][0] in ('batch', 'unbatch'): continue
+                        yield {'a': a1, 'a2': a2, 'r': rk, 'f': fk, 'lg': lg, 'n': n1, 'n2': 'ab', 'chain': ch, 'via': 'mixed'}
+
     def run_case(self, case, acc):
         fails, info = evaluate(case)
         acc.outcome(info['sig'])
@@ -752,6 +777,7 @@ class C10(Check):
         if case['via'] == 'envs': acc.count('through_Environments_shortcuts')
         if case['via'] == 'envs2': acc.count('two_environments_under_one_shortcut_call')
         if case['via'] == 'reuse': acc.count('filter_object_reused_on_streams_A_B_A')
+        if case['via'] == 'mixed': acc.count('streams_whose_action_kind_changes_on_the_way')
         if case['via'] == 'grounded': acc.count('grounded_histories_of_%d_interactions' % case['n'])
         elif len(pattern(case['n'])) >= 3: acc.count('histories_of_3_or_4_interactions')
         if info['hashcol']: acc.count('hash_collision_not_demanded')
